@@ -26,8 +26,10 @@ inductive Codec where
   | nie
   deriving DecidableEq, Repr, Inhabited
 
-/-- Does the decoder have the metadata side-track (the `0x10` states) at all? The others' `tell_me_more`
-is the one-liner `return base."#no more information"`. -/
+/-- Does the decoder have the metadata side-track (the `0x10` states) at all? The others never enter a
+right-hand-column state, so every `tell_me_more` call on them is out of order: their `tell_me_more` is
+the one-liner `return base."#bad call sequence"` (before fixes/C08-tmm-bad-call-sequence.patch it was
+`return base."#no more information"`). -/
 def Codec.hasMetadata : Codec → Bool
   | .gif => true
   | .png => true
@@ -154,7 +156,7 @@ def dfInner (c : Codec) (cs : Nat) : List Res :=
 /-- `do_tell_me_more`: `(cs & 0x10) == 0` ⇒ bad call sequence; may stop (`$even more information`,
 `$mispositioned read`, `#no more information`, …); at the end `cs &= 0xEF`. -/
 def tmmInner (c : Codec) (cs : Nat) : List Res :=
-  if !c.hasMetadata then [.fin (.err, cs)]   -- `return base."#no more information"`
+  if !c.hasMetadata then [.fin (.bcs, cs)]   -- `return base."#bad call sequence"`
   else if cs &&& 0x10 = 0 then [.fin (.bcs, cs)]
   else Res.ofStops cs ++ [.cont (cs &&& 0xEF)]
 
@@ -207,12 +209,18 @@ included) and the other statements that mention it, in source order, separated b
 `this.call_sequence` written `cs` and the position test of a restart written `POS`. The harness
 extracts the same text from the working tree's std/*/*.wuffs on every run (harness/cmd/c08/cssrc.go);
 the classes are `gif`, `png`, `nie`, `still` (the eleven single-frame decoders, whose text is
-identical) and `bmp` (only its `do_decode_image_config`, which also looks at `io_redirect_fourcc`). -/
+identical) and `bmp` (its `do_decode_image_config` and `do_tell_me_more`, which look at
+`io_redirect_fourcc`, and its function list). For a decoder without the metadata side-track the
+`tell_me_more` function (bmp: `do_tell_me_more`) is included although it does not mention the field: its
+first `return` with the `if` around it, i.e. the statement that rejects the call. -/
 
 def srcShape (cls fn : String) : String :=
   match cls, fn with
   | "bmp", "do_decode_image_config" =>
     "if (cs <> 0x00) or (this.io_redirect_fourcc == 1) { return base.\"#bad call sequence\" } else if this.io_redirect_fourcc <> 0 { return base.\"@I/O redirect\" } | cs = 0x20"
+  -- no redirect pending (0), or already told (1): out of order
+  | "bmp", "do_tell_me_more" =>
+    "if this.io_redirect_fourcc <= 1 { return base.\"#bad call sequence\" }"
   | "gif", "decode_ae" =>
     "if is_animexts or is_netscape { block_size = args.src.read_u8?() if block_size <> 3 { args.src.skip_u32?(n: block_size as base.u32) break.goto_done } c8 = args.src.read_u8?() if c8 <> 0x01 { args.src.skip_u32?(n: 2) break.goto_done } this.num_animation_loops_value = args.src.read_u16le_as_u32?() this.seen_num_animation_loops_value = true if (0 < this.num_animation_loops_value) and (this.num_animation_loops_value <= 0xFFFF) { this.num_animation_loops_value += 1 } } else if cs >= 0x20 { } else if is_iccp and this.report_metadata_iccp { this.metadata_fourcc = 'ICCP'be this.metadata_io_position = args.src.position() cs = 0x10 return base.\"@metadata reported\" } else if is_xmp and this.report_metadata_xmp { this.metadata_fourcc = 'XMP 'be this.metadata_io_position = args.src.position() cs = 0x10 return base.\"@metadata reported\" }"
   | "gif", "decode_up_to_id_part1" =>
@@ -243,6 +251,8 @@ def srcShape (cls fn : String) : String :=
     "if cs < 0x20 { return base.\"#bad call sequence\" } | cs = 0x28"
   | "nie", "skip_frame" =>
     "cs = 0x20 | cs = 0x60"
+  | "nie", "tell_me_more" =>
+    "return base.\"#bad call sequence\""
   | "png", "do_decode_frame" =>
     "if (cs & 0x10) <> 0 { return base.\"#bad call sequence\" } else if cs >= 0x60 { return base.\"@end of data\" } else if cs <> 0x40 { this.do_decode_frame_config?(dst: nullptr, src: args.src) } | cs = 0x20"
   | "png", "do_decode_frame_config" =>
@@ -267,15 +277,19 @@ def srcShape (cls fn : String) : String :=
     "if cs > 0x40 { return 1 }"
   | "still", "restart_frame" =>
     "if cs < 0x20 { return base.\"#bad call sequence\" } | cs = 0x28"
+  -- the whole body (the decoders without the metadata side-track; `tmmInner`)
+  | "still", "tell_me_more" =>
+    "return base.\"#bad call sequence\""
   | _, _ => "no-such-function"
 
 /-- The functions that mention `this.call_sequence`, sorted by name. -/
 def srcFuncs (cls : String) : String :=
   match cls with
   | "gif" => "decode_ae,decode_up_to_id_part1,do_decode_frame,do_decode_frame_config,do_decode_image_config,do_tell_me_more,restart_frame,set_quirk,skip_frame"
-  | "nie" => "decode_animation_info,do_decode_frame,do_decode_frame_config,do_decode_image_config,restart_frame,skip_frame"
+  | "nie" => "decode_animation_info,do_decode_frame,do_decode_frame_config,do_decode_image_config,restart_frame,skip_frame,tell_me_more"
+  | "bmp" => "do_decode_frame,do_decode_frame_config,do_decode_image_config,do_tell_me_more,num_decoded_frame_configs,num_decoded_frames,restart_frame"
   | "png" => "do_decode_frame,do_decode_frame_config,do_decode_image_config,do_tell_me_more,restart_frame,skip_frame"
-  | "still" => "do_decode_frame,do_decode_frame_config,do_decode_image_config,num_decoded_frame_configs,num_decoded_frames,restart_frame"
+  | "still" => "do_decode_frame,do_decode_frame_config,do_decode_image_config,num_decoded_frame_configs,num_decoded_frames,restart_frame,tell_me_more"
   | _ => "no-such-class"
 
 end WuffsVerif.CallSeq
